@@ -301,6 +301,39 @@ def work(case):
                 base = now
         words += 1
     out["observer_words"] = words
+    # observer order: what an observer returns must not depend on which other observers were called on that result before.  For every observer
+    # its value on an untouched extraction (one fresh extraction per observer) is the reference; two more extractions are walked by all
+    # observers, one in list order and one in reverse, and every value must equal the reference.  Only for inputs that are cheap to extract.
+    out["order_pairs"] = 0
+    if case.get("order_walks", True) and time.process_time() - t_cpu < 1.5:
+        try:
+            names = [n for n in dict.fromkeys(OBSERVERS)]
+            t1 = time.process_time()
+            fwd = list(fn(io.BytesIO(data), path))[:1]
+            cheap = time.process_time() - t1 < 0.05
+            rev = list(fn(io.BytesIO(data), path))[:1]
+
+            def val(r, n):
+                _budget_check()
+                try:
+                    return _sha(_observe(r, n))
+                except Exception as e:
+                    return f"raises-{type(e).__name__}"
+            if fwd and rev:
+                vf = {n: val(fwd[0], n) for n in names}
+                vr = {n: val(rev[0], n) for n in reversed(names)}
+                ref = {}
+                if cheap:
+                    for n in names:
+                        fresh = list(fn(io.BytesIO(data), path))[:1]
+                        ref[n] = val(fresh[0], n) if fresh else None
+                out["order_pairs"] += len(names) * (2 if cheap else 1)
+                for n in names:
+                    if vf[n] != vr[n] or (cheap and (ref[n] != vf[n] or ref[n] != vr[n])):
+                        out["problems"].append({"cmp": "observer-order", "field": f"{n}-depends-on-observers-called-before"})
+        except Exception as e:
+            _budget_check()
+            out["problems"].append({"cmp": "observer-order", "field": f"untouched-extraction-raises-{type(e).__name__}"})
     # results returned by earlier cases of this process must still say what they said
     out["rechecks"] = _recheck_held(out["problems"], f"case {case['id']} ({kind} {case['recipe']['src'][1:]})")
     t0 = time.perf_counter()
@@ -380,11 +413,12 @@ def main(run):
     notes = {}
     slow = []
     input_shas = {}
-    words = rechecks = seq_steps = 0
+    words = rechecks = seq_steps = order_pairs = 0
     gave_up = set()         # cases that used up their CPU budget / died in one pass cannot be compared: they are not run again in the later passes
     for hs in ("0", "1", "2", "random"):
         digests = {}
-        for case, ob in pool.run_cases("checks.c06:work", [c for c in cases if c["id"] not in gave_up], deadline_s=300, hashseed=hs, rlimit_as=2 * 2**30):
+        # (the forward / reverse observer walks do not depend on the hash seed: first pass only)
+        for case, ob in pool.run_cases("checks.c06:work", [dict(c, order_walks=(hs == "0")) for c in cases if c["id"] not in gave_up], deadline_s=300, hashseed=hs, rlimit_as=2 * 2**30):
             if ob.get("_harness_error"):
                 run.inconclusive("harness error: " + ob["_harness_error"])
                 print(ob.get("_tb"))
@@ -398,6 +432,7 @@ def main(run):
             input_shas.setdefault(case["id"], set()).add(ob.get("input_sha"))
             words += ob.get("observer_words", 0)
             rechecks += ob.get("rechecks", 0)
+            order_pairs += ob.get("order_pairs", 0)
             if ob.get("cpu_s", 0) > 5:
                 slow.append((ob["cpu_s"], hs, case.get("recipe")))
             seq_steps += ob.get("steps", 0)
@@ -459,6 +494,8 @@ def main(run):
     run.require("inputs_compared_across_4_hash_seeds", compared, run.n(200, 2000))
     run.require("observer_words_walked", words, run.n(500, 5000))
     run.count("earlier_results_redigested_after_later_extractions", rechecks)
+    run.count("observers_compared_between_forward_and_reverse_walks", order_pairs)
+    run.require("observers_compared_between_forward_and_reverse_walks", order_pairs, run.n(6000, 50000))
     run.count("sequence_steps", seq_steps)
     n_iso = sum(1 for c in cases if c["kind"] != "seq" and iso.is_iso(c["recipe"]["src"]))
     run.count("context_group_documents", n_iso)
